@@ -12,6 +12,8 @@ CONSTANTS TS, HSA, G, NApps,
           AppTargets,    \* destinations of application requests
           MaxDepth,
           WithPartial,   \* explore polls that leave an incomplete telegram in the buffer
+          Warm,          \* start from a station that has been admitted to a ring {WarmPS, TS, WarmNS} (fixed input prefix)
+          WarmPS, WarmNS,
           Emit           \* "none" | "state" | "edge": print schedules
 
 Me == [ts |-> TS, hsa |-> HSA, g |-> G, napps |-> NApps]
@@ -49,7 +51,19 @@ WellFormed(in) == (in.rx # <<>> \/ in.partial) => (~in.sync /\ ~in.slot /\ ~in.l
 
 MonInit == [offers |-> {}, passes |-> 0, passTo |-> -1]
 
-Init == st = Fresh(Me) /\ depth = 0 /\ mon = MonInit /\ viol = "none" /\ hist = <<>>
+(* warm start: the peers circulate the token until the LAS is valid, then the predecessor polls the *)
+(* station, which answers 'ready' and is in the ring (ActiveIdle) - as a fixed prefix of inputs      *)
+RxIn(rx) == [rx |-> rx, partial |-> FALSE, busy |-> FALSE, sync |-> FALSE, slot |-> FALSE, lost |-> FALSE, hold |-> TRUE, app |-> <<>>]
+QuietIn == [rx |-> <<>>, partial |-> FALSE, busy |-> FALSE, sync |-> TRUE, slot |-> FALSE, lost |-> FALSE, hold |-> TRUE, app |-> <<>>]
+WarmInputs == <<RxIn(<<Tok(WarmNS, WarmPS)>>), RxIn(<<Tok(WarmPS, WarmNS)>>), RxIn(<<Tok(WarmNS, WarmPS)>>),
+                RxIn(<<Tok(WarmPS, WarmNS)>>), RxIn(<<Tok(WarmNS, WarmPS)>>), RxIn(<<Tok(WarmPS, WarmNS)>>), RxIn(<<Tok(WarmNS, WarmPS)>>),
+                RxIn(<<SReq(WarmPS, TS)>>), QuietIn>>
+RECURSIVE RunInputs(_, _)
+RunInputs(s, ins) == IF ins = <<>> THEN s ELSE RunInputs(DoPoll(Me, s, Head(ins)).s, Tail(ins))
+
+Init == /\ st = IF Warm THEN RunInputs(Fresh(Me), WarmInputs) ELSE Fresh(Me)
+        /\ depth = 0 /\ mon = MonInit /\ viol = "none"
+        /\ hist = IF Warm THEN WarmInputs ELSE <<>>
 
 InGapP(a, ns) == a # TS /\ a < HSA /\ (IF ns > TS THEN a > TS /\ a < ns ELSE IF ns < TS THEN (a > TS \/ a < ns) ELSE TRUE)
 
@@ -82,6 +96,7 @@ Spec == Init /\ [][Next]_vars
 
 NoPanic == st.panic = "none"
 RulesOk == viol = "none"
+WarmOk == Warm => (depth = 0 => st.fsm = "ActiveIdle")
 TypeOk == st.fsm \in {"Offline", "Listen", "ActiveIdle", "UseToken", "Claim", "AwaitData", "PassToken", "CheckPass", "AwaitStatus"}
           /\ st.ring.lst \in LasStates /\ st.ring.ns \in 0..127 /\ st.ring.ps \in 0..127
 View == <<st, depth, mon, viol>>
